@@ -91,12 +91,11 @@ def check(run, replay):
         run.violation("translate:keyfields", "translator cannot read the key composition: %s" % e,
                       {"broken": "translator", "detail": str(e)}, found_input=False)
         return
-    ok = run.prove()
+    ok = run.prove(extra_targets=["theories/Cache/Run.vo"])
     if not ok:
         run.violation("proof:" + PID, "Properties_C20.vo does not build: " + str(run.proof_error())[:300],
                       {"broken": "proof", "detail": run.proof_error()}, found_input=False)
-    ok2, out, _ = vlib.coq_make(["theories/Cache/Run.vo"])
-    if not ok2:
+    if not os.path.exists(os.path.join(vlib.COQ, "theories/Cache/Run.vo")):
         return
     model = vlib.build_model(PID)
     vh = vlib.build_harness(PID)
